@@ -27,3 +27,14 @@ pub fn run(kernel: &str, req: &Value) -> Value {
         _ => json!({"error": "unknown uri kernel"}),
     }
 }
+
+pub fn nonce(req: &Value) -> Value {
+    use omaha_client::cup_ecdsa::Nonce;
+    let bytes: Vec<u8> = req["bytes"].as_array().map(|a| a.iter().map(|b| b.as_u64().unwrap_or(0) as u8).collect()).unwrap_or_default();
+    let mut arr = [0u8; 32];
+    for (i, b) in bytes.iter().take(32).enumerate() {
+        arr[i] = *b;
+    }
+    let n = Nonce::from(arr);
+    json!({"display": n.to_string()})
+}
